@@ -98,6 +98,9 @@ func (f *Field) Validate() error {
 	if f.Type == FieldTypeString && f.Length == 0 {
 		return errors.New("field with type string must have length set")
 	}
+	if int(f.Address)+int(f.registerSize()) > 0x10000 {
+		return errors.New("field address and size exceed the 16 bit address space")
+	}
 	return nil
 }
 
